@@ -84,6 +84,9 @@ func (x *Exec) genericProbes(r *StepRec) {
 				if qc.BatchRequestCount == 0 {
 					st.inc("g_batch_skipped")
 				}
+				if qc.BatchCounter == 256 {
+					st.inc("g_batch_counter_passed_255")
+				}
 				if qc.BatchCounter >= 2 {
 					st.inc("g_second_batch")
 				}
